@@ -207,6 +207,26 @@ def _walk_uris(x, out):
 def check_c16_uris(ctx, sched):
     d = ctx["driver"]
     w = ctx["world"]
+    # an answer to documentSymbol is about the document that was asked for: URI -> path -> URI
+    req_by_op = {k: (i, m) for (k, i, m) in d.requests}
+    for o in d.out:
+        f = o["f"]
+        rq = req_by_op.get(o["op"])
+        if rq and rq[1] == "textDocument/documentSymbol" and isinstance(f.get("result"), list) and f["result"]:
+            try:
+                asked = os.path.normpath(frames.uri_decode(d.ops[o["op"]]["m"]["params"]["textDocument"]["uri"]))
+            except Exception:
+                continue
+            got = set()
+            for sym in f["result"]:
+                try:
+                    got.add(os.path.normpath(frames.uri_decode(sym["location"]["uri"])))
+                except Exception:
+                    pass
+            if got and got != {asked}:
+                violation("C16", "uri-roundtrip", "documentSymbol answered for a different document",
+                          f"asked {asked!r}, symbols located in {sorted(got)!r}", op=o["op"])
+                break
     seen = set()
     for o in d.out:
         uris = []
@@ -347,6 +367,8 @@ def check_c17(ctx, sched, conservation=True):
     S.sim += 1
     realfs = w.snapshot_real()
     want = dict(w.files)
+    for lp, target in w.links.items():
+        want[lp] = b"->" + target.encode()
     for dname in w.dirs:
         if dname != CANON:
             want[dname + "/"] = b""
@@ -862,21 +884,30 @@ def transcript(driver, start=None):
         seen_ops[k] = m if m == "initialize" else f"{m}#{ordinal[m]}"
         return seen_ops[k]
 
+    by_op = {}
     for o in driver.out:
         k = o["op"]
         if k < start:
             continue
         f = o["f"]
+        slot = by_op.setdefault(k, {"notifications": []})
         if is_response(f):
             rq = req_by_op.get(k)
             if "error" in f:
                 e = f["error"]
-                out.append([label(k), {"error": {"code": e.get("code"), "message": e.get("message"),
-                                                 "site": err_site(f)}}])
+                slot["response"] = {"error": {"code": e.get("code"), "message": e.get("message"),
+                                              "site": err_site(f)}}
             else:
-                out.append([label(k), normalise_result(rq[1] if rq else "", f.get("result"))])
+                slot["response"] = {"result": normalise_result(rq[1] if rq else "", f.get("result"))}
         else:
-            out.append([label(k) + " -> " + str(f.get("method")), normalise_result("", f.get("params"))])
+            slot["notifications"].append({"method": f.get("method"),
+                                          "params": normalise_result("", f.get("params"))})
+    # one entry per client message from `start` on, whether or not it produced output: the two
+    # sides of a comparison then always have the same labels and differ only in content
+    for k in range(max(start, 0), len(driver.ops)):
+        if driver.ops[k]["k"] != "msg":
+            continue
+        out.append([label(k), by_op.get(k, {"notifications": []})])
     return out
 
 
@@ -892,7 +923,7 @@ def check_c18(ctx, sched):
 
     d = ctx["driver"]
     tree = sched.get("tree", {})
-    files = {p for p in tree if not p.endswith("/")}
+    files = {p for p in tree if not p.endswith("/") and not (isinstance(tree[p], dict) and "symlink" in tree[p])}
     dirs = {p.rstrip("/") for p in tree if p.endswith("/")}
     for f in files:
         x = os.path.dirname(f)
